@@ -13,9 +13,9 @@
    TLC checks  AcceptSound == accept => GossipOK  and totality on every edge.
 
    Abstraction of values (the harness concretises them, harness/valkit):
-     slots   : an integer k is the real slot Base+k (Base a multiple of 32, 4 and 7); ZERO = real 0, H62 = 2^62+Base,
-               H63 = 2^63, HMAX = 2^64-1 (codes keep the real order).  height = slot.
-     rounds  : an integer is itself; RBIG = 2^32, R63 = 2^63, RMAX = 2^64-1.
+     slots   : an integer k is the real slot Base+k (Base a multiple of 32, 4 and 7); codes for 0, 1, 2^31-1, 2^31,
+               2^32-1, 2^32, 2^62+Base, 2^63-1, 2^63, 2^64-1 (codes keep the real order).  height = slot.
+     rounds  : a small integer is itself; codes for 2^31-1, 2^31, 2^32-1, 2^32, 2^63-1, 2^63, 2^64-1.
      time    : t = [s |-> current slot, o |-> whole seconds into the slot]; the real clock is set to o + 0.5 s.
      signers : 1..N committee members, 0 the zero id, ids > N non-members.
      data    : fd = 0 no full data attached, 1 = value A, 2 = value B; root = 1 hash(A), 2 hash(B).
@@ -46,13 +46,26 @@ VARIABLES sig,    \* [role -> [1..N -> signer state]]
 vars == <<sig, hist, now, done, act>>
 view == <<sig, hist, now, done>>
 
+(* slot codes (real order kept): ZERO = 0, ONE = 1, then the ordinary slots Base+k, then the values around the int
+   boundaries, which are all in the future of every modelled time point *)
 ZERO == -1000
+ONE  == -999
+H31M == 801          \* 2^31-1
+H31  == 802          \* 2^31
+H32M == 803          \* 2^32-1
+H32  == 804          \* 2^32
 H62  == 900          \* real slot 2^62 + Base: (2^62+s)*12 = 3*2^64 + 12*s, the same start time as slot Base (code 0)
+H63M == 999          \* 2^63-1 = MaxInt64: not refused by the proposal guard (height > MaxInt64)
 H63  == 1000
-HMAX == 1001
-RBIG == 1000
-R63  == 1001
-RMAX == 1002
+HMAX == 1001         \* 2^64-1
+(* round codes: small integers are themselves *)
+R31M == 990          \* 2^31-1 = MaxInt32: the largest round the proposal guard lets through to the leader computation
+R31  == 991
+R32M == 992
+RBIG == 1000         \* 2^32
+R63M == 1001         \* 2^63-1 = MaxInt64
+R63  == 1002
+RMAX == 1003         \* 2^64-1
 
 F == (N - 1) \div 3
 Quorum == 2 * F + 1
@@ -60,9 +73,19 @@ Members == 1..N
 G(g) == Weaken # g        \* guard g is in force
 
 SignerSet(m) == {m.sg[k] : k \in 1..Len(m.sg)}
-Epoch(k) == IF k = ZERO THEN -100000 ELSE IF k >= 900 THEN k * 1000 ELSE k \div 32
-HMod(h) == IF h = ZERO THEN 0 ELSE IF h = H62 THEN (IF N = 4 THEN 0 ELSE 4) ELSE h % N   \* 2^62 mod 7 = 4
-Leader(h, r) == ((HMod(h) + r - 1) % N) + 1
+Epoch(k) == IF k <= ONE THEN -100000 ELSE IF k >= 800 THEN k * 1000 ELSE k \div 32
+(* round-robin leader, committee[(height mod N + round - 1) mod N], over the real numbers behind the codes
+   (residues of 2^31-1, 2^31, 2^32-1, 2^32, 2^62, 2^63-1, 2^63, 2^64-1 modulo 4 and 7) *)
+HMod(h) == CASE h = ZERO -> 0 [] h = ONE -> 1
+             [] h = H31M -> (IF N = 4 THEN 3 ELSE 1) [] h = H31 -> (IF N = 4 THEN 0 ELSE 2)
+             [] h = H32M -> (IF N = 4 THEN 3 ELSE 3) [] h = H32 -> (IF N = 4 THEN 0 ELSE 4)
+             [] h = H62 -> (IF N = 4 THEN 0 ELSE 4) [] h = H63M -> (IF N = 4 THEN 3 ELSE 0)
+             [] h = H63 -> (IF N = 4 THEN 0 ELSE 1) [] h = HMAX -> (IF N = 4 THEN 3 ELSE 1) [] OTHER -> h % N
+RMod(r) == CASE r = R31M -> (IF N = 4 THEN 3 ELSE 1) [] r = R31 -> (IF N = 4 THEN 0 ELSE 2)
+             [] r = R32M -> (IF N = 4 THEN 3 ELSE 3) [] r = RBIG -> (IF N = 4 THEN 0 ELSE 4)
+             [] r = R63M -> (IF N = 4 THEN 3 ELSE 0) [] r = R63 -> (IF N = 4 THEN 0 ELSE 1)
+             [] r = RMAX -> (IF N = 4 THEN 3 ELSE 1) [] OTHER -> r % N
+Leader(h, r) == ((HMod(h) + RMod(r) + N - 1) % N) + 1
 Signed(t) == Epoch(t.s) > ForkEpoch
 TLeq(a, b) == a.s < b.s \/ (a.s = b.s /\ a.o <= b.o)
 
@@ -79,9 +102,10 @@ PTypeOK(pt, role) ==
 
 ----------------------------------------------------------------------------
 (* clock arithmetic of the code (network.go, validateSlotTime, currentEstimatedRound), in half seconds *)
-Special(k) == k = ZERO \/ k >= 1000
-Alias(k) == IF k = H62 THEN 0 ELSE k             \* the slot whose start time the code computes for k
-Early(h, t) == IF h >= H62 /\ OverflowGuard THEN TRUE       \* 2^62+Base, 2^63, 2^64-1 are beyond MaxInt64/12
+Special(k) == k <= ONE \/ k >= H63M              \* start time far in the past: slots 0, 1; 2^63-1, 2^63, 2^64-1 wrap to about genesis
+FutureFits(k) == k \in {H31M, H31, H32M, H32}   \* start time computed correctly, far in the future
+Alias(k) == IF k = H62 THEN 0 ELSE IF FutureFits(k) THEN 100000 ELSE k      \* the slot whose start time the code computes for k
+Early(h, t) == IF h >= H62 /\ OverflowGuard THEN TRUE       \* 2^62+Base, 2^63-1, 2^63, 2^64-1 are beyond MaxInt64/12
                ELSE ~Special(h) /\ Alias(h) > t.s   \* slotEnd(current) - 50ms before slotStart(h); 2^63 and 2^64-1 wrap to genesis
 Late(h, role, t) == TTL(role) >= 0 /\ (Special(h) \/ t.s > Alias(h) + TTL(role))
 EstRound(h, t) ==        \* estimated round of a message for slot h received at t
@@ -153,7 +177,7 @@ ConsSigners(m) ==
     Then(CASE n = 0 -> Rej("no signers")
            [] n = 1 /\ m.mt = 0 ->
                 (CASE m.r < 1 -> Ign("message round is too far from estimated")
-                   [] m.r >= RBIG -> Ign("round is too high for this role")
+                   [] m.r >= R31 -> Ign("round is too high for this role")      \* round > MaxInt32
                    [] m.h >= H63 -> Ign("early message")
                    [] G("leader") /\ m.sg[1] # Leader(m.h, m.r) -> Rej("signer is not leader")
                    [] OTHER -> Pass)
@@ -204,7 +228,7 @@ BehaviourLoop(m, S, k) ==
 EnvRules(m, t) ==
     IF ~Signed(t) \/ ~G("signature") THEN Pass
     ELSE CASE m.env = "unkop" -> Rej("operator not found")
-           [] m.env = "badsig" -> Rej("signature verification")
+           [] m.env \in {"badsig", "badkey1", "badkey2", "badkey3", "badkey4"} -> Rej("signature verification")
            [] OTHER -> Pass
 
 ConsRules(m, t, S) ==
@@ -291,12 +315,7 @@ Elapsed2(h, t) == 2 * ((t.s - h) * 12 + t.o) + 1                    \* half seco
 Deadline2(r) == IF r <= 8 THEN 4 * r ELSE 32 + 240 * (r - 8)         \* end of round r of an instance started at slot start
 RoundAt(h, t) == CHOOSE r \in 1..40 : Deadline2(r - 1) <= Elapsed2(h, t) /\ Elapsed2(h, t) < Deadline2(r)
 
-(* round-robin leader over the real numbers behind the codes (2^62, 2^63, 2^64-1, 2^32 modulo 4 and 7) *)
-HModD(h) == CASE h = ZERO -> 0 [] h = H62 -> (IF N = 4 THEN 0 ELSE 4) [] h = H63 -> (IF N = 4 THEN 0 ELSE 1)
-              [] h = HMAX -> (IF N = 4 THEN 3 ELSE 1) [] OTHER -> h % N
-RModD(r) == CASE r = RBIG -> (IF N = 4 THEN 0 ELSE 4) [] r = R63 -> (IF N = 4 THEN 0 ELSE 1)
-              [] r = RMAX -> (IF N = 4 THEN 3 ELSE 1) [] OTHER -> r % N
-LeaderD(h, r) == ((HModD(h) + RModD(r) + N - 1) % N) + 1
+LeaderD(h, r) == Leader(h, r)
 
 SlotWindowOK(m, t) == m.h <= t.s /\ (TTL(m.role) >= 0 => t.s <= m.h + TTL(m.role))
 
@@ -327,7 +346,7 @@ GossipBreak(m, t, H) ==
       [] m.st = "cons" /\ m.mt = 0 /\ (m.r < 1 \/ m.sg[1] # LeaderD(m.h, m.r)) -> "non-leader-proposal"
       [] m.st = "cons" /\ HasFullData(m) /\ m.fd # m.root -> "root-mismatch"
       [] m.st = "psig" /\ ~SlotWindowOK(m, t) -> "partial-sig-outside-slot-window"
-      [] m.st = "cons" /\ m.h \in {H62, H63, HMAX} -> "slot-time-overflow"
+      [] m.st = "cons" /\ m.h >= H62 -> "slot-time-overflow"
       [] m.st = "cons" /\ m.h > t.s -> "early-slot"
       [] m.st = "cons" /\ ~SlotWindowOK(m, t) -> "late-slot"
       [] m.st = "cons" /\ (m.r < 1 \/ m.r > MaxRound(m.role)) -> "round-too-high"
